@@ -160,6 +160,25 @@ func cmdReplayCosOpt(args []string) error {
 			// change the cosmetic option of the page
 			res2 := e.MatchRequest(rules.NewRequest("http://h.test/", "http://h.test/index.html", rules.TypeDocument))
 			check("Engine.MatchRequest(same-site referrer)+GetCosmeticOption", optionSet(res2.GetCosmeticOption()), "")
+			// a domain-specific exception outranks a generic one, however many modifiers the generic one has: the case's
+			// rule restricted to its own site, against a generic exception with four modifiers that do not touch the
+			// cosmetic options
+			if c.Kind == "exception" && len(mods) >= 1 && len(mods) <= 2 && (c.Ctype == "" || c.Ctype == "none") && !containsStr(mods, "document") {
+				g := "@@||h.test^$content,extension,urlblock,genericblock"
+				if containsStr(mods, "important") {
+					g += ",important"
+				}
+				l3 := "##.generic\nh.test##.specific\n" + g + "\n" + text + ",domain=h.test\n"
+				if order == 1 {
+					l3 = "##.generic\nh.test##.specific\n" + text + ",domain=h.test\n" + g + "\n"
+				}
+				st3, err := layoutStorage([]string{l3}, []int{2})
+				if err != nil {
+					return err
+				}
+				res3 := urlfilter.NewEngine(st3).MatchRequest(rules.NewRequest("http://h.test/", "http://h.test/index.html", rules.TypeDocument))
+				check("Engine.MatchRequest(domain-specific exception against a generic one with more modifiers)", optionSet(res3.GetCosmeticOption()), l3)
+			}
 			// (an unrestricted lookup for the same host first: what it returns must not colour the restricted one)
 			_ = e.GetCosmeticResult("h.test", rules.CosmeticOptionAll)
 			cr := e.GetCosmeticResult("h.test", opt)
@@ -213,6 +232,15 @@ func cmdReplayCosOpt(args []string) error {
 	}
 	summary(map[string]any{"cases": len(recs), "evaluations": evals, "mismatches": mism, "nontrivial": nontrivial, "samples": samples})
 	return nil
+}
+
+func containsStr(xs []string, x string) bool {
+	for _, y := range xs {
+		if y == x {
+			return true
+		}
+	}
+	return false
 }
 
 func isContentTypeName(m string) bool {
